@@ -14,7 +14,7 @@ GARBAGE = {"OUT1": 99.0, "OUT2": 1, "OUT3": 77.0}      # what the device holds b
 SAFE = {"OUT1": 0.0, "OUT2": "Closed"}                  # tag-level safe values (OUT3 has none)
 SAFE_HW = {"OUT1": 0.0, "OUT2": 0}                      # the same after from_tag conversion
 OUTPUTS = ["OUT1", "OUT2", "OUT3"]
-UOD_COMMANDS = ["Set1", "Set3", "Ramp", "LongA", "LongB", "LongC", "Valve", "Boom", "BoomInit", "BadArgs", "Spin", "Churn", "OpenValve", "Full"]
+UOD_COMMANDS = ["Set1", "Set3", "Ramp", "LongA", "LongB", "LongC", "Valve", "Boom", "BoomInit", "BadArgs", "Spin", "Churn", "OpenValve", "Full", "SlowOpen", "SlowFull"]
 
 
 class NotArchivedTag(Tag):
@@ -37,6 +37,7 @@ class SimHardware(HardwareLayerBase):
         self.fail_reads = 0       # number of upcoming read_batch calls that fail
         self.fail_writes = 0
         self.fired = {"hw_read_fail": 0, "hw_write_fail": 0}
+        self.on_hook: Callable[[], None] | None = None    # one-shot callback from inside a tag's format function
 
     def read(self, r: Register) -> Any:
         return self.inputs[r.name]
@@ -161,6 +162,27 @@ def build_probe_uod(hw: SimHardware, plog: ProbeLog, clock_read: Callable[[], fl
         cmd.context.tags["OUT1"].set_value(100.0, clock_read())
         cmd.set_complete()
 
+    def make_slow(out: str, value):
+        # a multi-tick command that drives its output only in its third iteration: an output that is at its safe value when
+        # a pause begins may leave it during the pause (a command that is already executing goes on executing)
+        def slow(cmd: UodCommand, **kw) -> None:
+            plog.add("exec", cmd, "")
+            i = cmd.get_iteration_count()
+            if i == 2:
+                cmd.context.tags[out].set_value(value, clock_read())
+            if i + 1 >= 6:
+                cmd.set_complete()
+        return slow
+
+    def hook_format(value) -> str:
+        # the reporter formats every tag it collects: the one place where the harness can let a tick land in the middle of
+        # a report drain without a second thread
+        cb = hw.on_hook
+        if cb is not None:
+            hw.on_hook = None
+            cb()
+        return str(value)
+
     def bad_args_parse(args: str):
         return None
 
@@ -195,6 +217,7 @@ def build_probe_uod(hw: SimHardware, plog: ProbeLog, clock_read: Callable[[], fl
         .with_tag(Tag("OUT1", value=0.0, unit="%", direction=TagDirection.Output))
         .with_tag(SelectTag("OUT2", value="Closed", unit=None, choices=["Open", "Closed"], direction=TagDirection.Output))
         .with_tag(Tag("OUT3", value=0.0, unit=None, direction=TagDirection.Output))
+        .with_tag(Tag("HOOK", value=0, unit=None, format_fn=hook_format))
         .with_accumulated_volume("VOL")
         .with_accumulated_cv("CV", "VOL")
         .with_command_regex_arguments("Set1", RegexNumber(units=["%"]), set1, init_fn, fin_fn)
@@ -214,6 +237,8 @@ def build_probe_uod(hw: SimHardware, plog: ProbeLog, clock_read: Callable[[], fl
         .with_command("Churn", churn, init_fn, fin_fn, arg_parse_fn=None)
         .with_command("OpenValve", open_valve, init_fn, fin_fn, arg_parse_fn=None)
         .with_command("Full", full, init_fn, fin_fn, arg_parse_fn=None)
+        .with_command("SlowOpen", make_slow("OUT2", "Open"), init_fn, fin_fn, arg_parse_fn=None)
+        .with_command("SlowFull", make_slow("OUT1", 55.0), init_fn, fin_fn, arg_parse_fn=None)
         .with_command_overlap(["LongA", "LongB"])
         .with_command_overlap(["LongB", "LongC"])       # LongB is declared in two overlap groups
         .with_process_value("PV1")
